@@ -16,22 +16,22 @@ import (
 // Job is what the driver (bin/check) hands to a worker process through the
 // file named by $DSIM_JOB.
 type Job struct {
-	Property string `json:"property"`
-	World    string `json:"world"`
-	Tier     string `json:"tier"`
-	BaseSeed uint64 `json:"base_seed"`
-	From     int    `json:"from"`
-	To       int    `json:"to"`
-	Stride   int    `json:"stride"`
-	Out      string `json:"out"`
-	BudgetS  float64 `json:"budget_s"`
-	Mode     string `json:"mode"` // "explore" | "replay" | "shrink"
-	Replay   *ReplayFile `json:"replay,omitempty"`
-	Trace    bool   `json:"trace"`
-	MaxViol  int    `json:"max_viol"`
-	ShrinkBudgetS float64 `json:"shrink_budget_s"`
-	ShrinkMaxRuns int `json:"shrink_max_runs"`
-	Variant  string `json:"variant"`
+	Property      string      `json:"property"`
+	World         string      `json:"world"`
+	Tier          string      `json:"tier"`
+	BaseSeed      uint64      `json:"base_seed"`
+	From          int         `json:"from"`
+	To            int         `json:"to"`
+	Stride        int         `json:"stride"`
+	Out           string      `json:"out"`
+	BudgetS       float64     `json:"budget_s"`
+	Mode          string      `json:"mode"` // "explore" | "replay" | "shrink"
+	Replay        *ReplayFile `json:"replay,omitempty"`
+	Trace         bool        `json:"trace"`
+	MaxViol       int         `json:"max_viol"`
+	ShrinkBudgetS float64     `json:"shrink_budget_s"`
+	ShrinkMaxRuns int         `json:"shrink_max_runs"`
+	Variant       string      `json:"variant"`
 }
 
 // ReplayFile is the replay file format (DESIGN.md section 6).
@@ -54,25 +54,25 @@ type ReplayFile struct {
 }
 
 type chunk struct {
-	T            string           `json:"t"`
-	Next         int              `json:"next"`
-	Runs         int              `json:"runs"`
-	Steps        int64            `json:"steps"`
-	SimNs        int64            `json:"sim_ns"`
-	Ops          int64            `json:"ops"`
-	OpsDone      int64            `json:"ops_done"`
-	Inconclusive map[string]int   `json:"inconclusive,omitempty"`
-	Void         map[string]int   `json:"void,omitempty"`
-	Probes       map[string]int64 `json:"probes,omitempty"`
-	Faults       map[string]int64 `json:"faults,omitempty"`
-	RunsWithFault int             `json:"runs_with_fault"`
-	Hashes       []string         `json:"hashes,omitempty"` // sched hashes of non-trivial runs
-	Trivial      int              `json:"trivial"`
-	Samples      []json.RawMessage `json:"samples,omitempty"`
-	MaxParkedNs  int64            `json:"max_parked_ns"`
-	Modes        map[string]int   `json:"modes,omitempty"`
-	UncontrolledY int64           `json:"uncontrolled_yields"`
-	WallS        float64          `json:"wall_s"`
+	T             string            `json:"t"`
+	Next          int               `json:"next"`
+	Runs          int               `json:"runs"`
+	Steps         int64             `json:"steps"`
+	SimNs         int64             `json:"sim_ns"`
+	Ops           int64             `json:"ops"`
+	OpsDone       int64             `json:"ops_done"`
+	Inconclusive  map[string]int    `json:"inconclusive,omitempty"`
+	Void          map[string]int    `json:"void,omitempty"`
+	Probes        map[string]int64  `json:"probes,omitempty"`
+	Faults        map[string]int64  `json:"faults,omitempty"`
+	RunsWithFault int               `json:"runs_with_fault"`
+	Hashes        []string          `json:"hashes,omitempty"` // sched hashes of non-trivial runs
+	Trivial       int               `json:"trivial"`
+	Samples       []json.RawMessage `json:"samples,omitempty"`
+	MaxParkedNs   int64             `json:"max_parked_ns"`
+	Modes         map[string]int    `json:"modes,omitempty"`
+	UncontrolledY int64             `json:"uncontrolled_yields"`
+	WallS         float64           `json:"wall_s"`
 }
 
 func newChunk() *chunk {
@@ -184,6 +184,10 @@ func doExplore(t *testing.T, job *Job) {
 			c.Sched.Dense = true
 			c.Sched.MaxSteps *= 4
 		}
+		if sim.NewRng(seed^0x71e5).Chance(1, 3) {
+			// the timer channels of Go releases before 1.23 (R13)
+			c.Sched.OldTimers = true
+		}
 		if os.Getenv("DSIM_DEBUG") != "" {
 			b, _ := json.Marshal(c)
 			fmt.Fprintf(os.Stderr, "DSIM_DEBUG idx=%d case=%s\n", idx, b)
@@ -243,7 +247,17 @@ func doExplore(t *testing.T, job *Job) {
 			ck.Samples = append(ck.Samples, b)
 		}
 		if job.Variant == "determinism" {
-			emit(map[string]any{"t": "h", "i": idx, "h": res.TraceHash, "steps": res.Steps, "trace": res.Trace})
+			// the same case once more in this process, replayed from the recorded tape: it must
+			// not matter that the process has run something before (state that survives a run),
+			// nor whether decisions are drawn or replayed
+			h := res.TraceHash
+			if !res.Dirty && res.HarnessError == "" {
+				res2, _ := runOne(t, c.Clone(), seed, rec, true, false)
+				if res2.TraceHash != res.TraceHash {
+					h = res.TraceHash + "!=rerun:" + res2.TraceHash
+				}
+			}
+			emit(map[string]any{"t": "h", "i": idx, "h": h, "steps": res.Steps, "trace": res.Trace})
 		}
 		if res.HarnessError != "" {
 			emit(map[string]any{"t": "harness_error", "index": idx, "run_seed": seed, "error": res.HarnessError, "case": c, "tape": rec})
